@@ -274,6 +274,14 @@ func runC20(c *kit.Ctx) {
 				okRet = false
 			}
 		})
+		// every Dial goes through the once: a caller arriving while the connection is being set up
+		// waits for the hello instead of writing ahead of it
+		if e := mustPass(dial, func(x ssa.Instruction) bool {
+			cc, ok := x.(*ssa.Call)
+			return ok && kit.CalleeName(cc) == nmOnceDo
+		}, nil); true {
+			c.Check(e == nil, dial, "dial-through-once", dial.Pos(), "every path through Dial calls dialOnce.Do", "Dial can return without going through dialOnce.Do (a fast path): a second region of a server whose connection is still being set up does not wait for the hello, its request is written ahead of or into the preamble, the server drops the connection and is dialled again: "+c.BlockPath(e))
+		}
 		c.Check(okRet, dial, "dial-result", dial.Pos(), "Dial returns an error only on the closed done channel", "Dial returns an error not derived from the done channel")
 	}
 
@@ -308,9 +316,13 @@ func runC20(c *kit.Ctx) {
 		}
 	}
 
+	// a healthy connection stays usable: nothing but the in-flight helpers arms a deadline on it
+	counterAndDeadlineUnderOneLock(c, kit.NewLockEnv(p))
+
 	// ---- R3 -----------------------------------------------------------------
 	c.StartRule("R3", "cache entries are removed only on the declared-dead path", 5)
 	cacheEntriesLeaveOnlyWhenDead(c)
+	decodeErrorsKeepTheConnection(c)
 	clientDownOnlyWhenDead(c, hre, est)
 	deadConnectionIsTheFailedOne(c)
 
